@@ -240,6 +240,7 @@ let () =
           match outs with
           | "PANIC" :: _ -> "fail:server-panic"
           | "WEDGED" :: _ | "WEDGED-AT-END" :: _ -> "fail:server-wedged"
+          | "SPIN" :: _ -> "fail:session-keeps-reading-after-read-errors"
           | _ ->
               let rfs = List.filter (fun f -> f <> "" && f.[0] <> 'S') outs in
               let dfs = List.filter (fun f -> f <> "" && f.[0] = 'S') outs in
@@ -295,6 +296,7 @@ let () =
           match outs with
           | "PANIC" :: _ -> "fail:server-panic"
           | "WEDGED" :: _ | "WEDGED-AT-END" :: _ -> "fail:server-wedged"
+          | "SPIN" :: _ -> "fail:session-keeps-reading-after-read-errors"
           | _ ->
               let rfs = List.filter (fun f -> f <> "" && f.[0] <> 'S') outs in
               let dfs = List.filter (fun f -> f <> "" && f.[0] = 'S') outs in
@@ -321,6 +323,7 @@ let () =
           match outs with
           | "PANIC" :: _ -> "fail:server-panic"
           | "WEDGED" :: _ | "WEDGED-AT-END" :: _ -> "fail:server-wedged"
+          | "SPIN" :: _ -> "fail:session-keeps-reading-after-read-errors"
           | _ ->
               let rfs = List.filter (fun f -> f <> "" && f.[0] <> 'S') outs in
               let dfs = List.filter (fun f -> f <> "" && f.[0] = 'S') outs in
